@@ -294,6 +294,15 @@ impl Pred {
 }
 
 impl Core {
+    /// static types of the output columns
+    pub fn out_tys(&self, db: &DbDef) -> Vec<Ty> {
+        let ft = self.from.tys(db);
+        let base: Vec<Ty> = match &self.group {
+            None => ft,
+            Some(g) => g.keys.iter().map(|k| expr_ty(k, &ft)).chain(g.aggs.iter().map(|a| a.ty(&ft))).collect(),
+        };
+        self.select.iter().map(|e| expr_ty(e, &base)).collect()
+    }
     /// names / types of the row the select list (and HAVING) is evaluated on
     pub fn base_names(&self, db: &DbDef) -> Vec<String> {
         let f = self.from.names(db);
@@ -493,6 +502,8 @@ fn pseudo_schema(names: &[String], tys: &[Ty]) -> Schema {
 pub struct QGen<'a> {
     pub db: &'a DbDef,
     pub subqueries: bool,
+    /// when set, every generated core reads exactly this FROM clause
+    pub force_from: Option<From>,
 }
 
 impl<'a> QGen<'a> {
@@ -618,7 +629,7 @@ impl<'a> QGen<'a> {
     }
 
     pub fn gen_core(&self, r: &mut Rng, allow_order: bool) -> Core {
-        let from = self.gen_from(r);
+        let from = self.force_from.clone().unwrap_or_else(|| self.gen_from(r));
         let names = from.names(self.db);
         let tys = from.tys(self.db);
         let ps = pseudo_schema(&names, &tys);
@@ -635,7 +646,10 @@ impl<'a> QGen<'a> {
             let mut aggs = vec![];
             for _ in 0..naggs {
                 let int_cols = ps.cols_of(Ty::Int);
-                let f = *r.pick(&[AggFn::CountStar, AggFn::Count, AggFn::Sum, AggFn::Min, AggFn::Max]);
+                let mut f = *r.pick(&[AggFn::CountStar, AggFn::Count, AggFn::Sum, AggFn::Min, AggFn::Max]);
+                if f == AggFn::Sum && int_cols.is_empty() {
+                    f = AggFn::CountStar;
+                }
                 let arg = match f {
                     AggFn::CountStar => E::Lit(Lit::Null),
                     AggFn::Sum => {
@@ -751,4 +765,84 @@ pub fn shift_cols(e: E, by: usize) -> E {
         E::Ite(x, y, z) => E::Ite(b(x), b(y), b(z)),
         E::Coalesce(x, y) => E::Coalesce(b(x), b(y)),
     }
+}
+
+// ------------------------------------------------------------------------------------------
+// tie-robust comparison of a query result with the reference
+
+/// parsed `(rows DET (R…) (FULL…))` reply of the C01 / C32 drivers
+pub struct RefResult {
+    pub det: bool,
+    pub rows: Vec<Vec<String>>,
+    pub full: Vec<Vec<String>>,
+}
+
+pub fn parse_ref(reply: &str) -> Result<RefResult, String> {
+    fn rows_of(s: &Sx) -> Vec<Vec<String>> {
+        s.as_list().unwrap_or(&[]).iter().map(|r| r.as_list().unwrap_or(&[]).iter().map(|v| v.to_string()).collect()).collect()
+    }
+    match Sx::parse(reply) {
+        Some(Sx::List(v)) if v.len() == 4 && v[0].as_atom() == Some("rows") => {
+            Ok(RefResult { det: v[1].as_atom() == Some("1"), rows: rows_of(&v[2]), full: rows_of(&v[3]) })
+        }
+        _ => Err(reply.to_string()),
+    }
+}
+
+fn join_row(r: &[String]) -> String {
+    format!("({})", r.join(" "))
+}
+
+/// Compare an engine result with the reference. Returns Err(description) on a real difference.
+/// * no LIMIT/OFFSET: multisets must be equal; sequences too when `det`
+/// * LIMIT/OFFSET with a determined order: sequences must be equal
+/// * LIMIT/OFFSET with ties ("ties aside"): same number of rows, the ORDER BY key columns form the
+///   same sequence, and the rows are a sub-multiset of the unlimited reference result
+pub fn compare_with_ref(engine: &[Vec<vibesql_types::SqlValue>], m: &RefResult, order_by: &[(usize, bool)], limited: bool) -> Result<&'static str, String> {
+    let eng: Vec<Vec<String>> = engine.iter().map(|r| r.iter().map(crate::canon::val).collect()).collect();
+    let bag = |x: &Vec<Vec<String>>| {
+        let mut v: Vec<String> = x.iter().map(|r| join_row(r)).collect();
+        v.sort();
+        v
+    };
+    if !limited {
+        if bag(&eng) != bag(&m.rows) {
+            return Err("result multiset differs from the reference semantics".into());
+        }
+        if m.det && eng != m.rows {
+            return Err("row sequence differs from the reference although ORDER BY determines it".into());
+        }
+        if !order_by.is_empty() {
+            let keys = |x: &Vec<Vec<String>>| -> Vec<Vec<String>> { x.iter().map(|r| order_by.iter().map(|(i, _)| r.get(*i).cloned().unwrap_or_default()).collect()).collect() };
+            if keys(&eng) != keys(&m.rows) {
+                return Err("ORDER BY key sequence differs from the reference".into());
+            }
+        }
+        return Ok(if m.det { "sequence_compared" } else { "multiset_compared" });
+    }
+    if m.det {
+        if eng != m.rows {
+            return Err("LIMIT/OFFSET slice differs from the reference although ORDER BY determines the order".into());
+        }
+        return Ok("limited_sequence_compared");
+    }
+    if eng.len() != m.rows.len() {
+        return Err("LIMIT/OFFSET returns a different number of rows than the reference".into());
+    }
+    if !order_by.is_empty() {
+        let keys = |x: &Vec<Vec<String>>| -> Vec<Vec<String>> { x.iter().map(|r| order_by.iter().map(|(i, _)| r.get(*i).cloned().unwrap_or_default()).collect()).collect() };
+        if keys(&eng) != keys(&m.rows) {
+            return Err("LIMIT/OFFSET slice: ORDER BY key sequence differs from the reference".into());
+        }
+    }
+    let mut pool = bag(&m.full);
+    for r in bag(&eng) {
+        match pool.iter().position(|x| *x == r) {
+            Some(i) => {
+                pool.remove(i);
+            }
+            None => return Err("LIMIT/OFFSET slice contains a row that the unlimited reference result does not".into()),
+        }
+    }
+    Ok("limited_ties_compared")
 }
